@@ -149,6 +149,8 @@ def render_block(stmts, ind):
         k = s[0]
         if k == 'decl':
             out += '%svar %s: i32 = %s;\n' % (t, s[1], render_expr(s[2]))
+        elif k == 'declarr':
+            out += '%svar %s: [2]i32 = [1, 2];\n' % (t, s[1])
         elif k == 'assign':
             out += '%s%s = %s;\n' % (t, s[1], render_expr(s[2]))
         elif k == 'ifgoto':
@@ -231,6 +233,12 @@ class Oracle:
                 self.why.append('declaration of %s while that name is visible' % name)
             self.scopes[-1][name] = s[3]
             return None if cur is None else cur | {s[3]}
+        if k == 'declarr':
+            if s[1] in PARAMS or s[1] in CONSTS or self.visible(s[1]) is not None:
+                self.expect.add('422')
+                self.dups = True
+            self.scopes[-1][s[1]] = s[2]
+            return None if cur is None else cur | {s[2]}
         if k == 'assign':
             self.use(s[1], cur)
             for a in s[2]:
@@ -238,6 +246,7 @@ class Oracle:
                     self.use(a[1], cur)
             return cur
         if k == 'ifgoto':
+            self.use(s[1], cur)
             if cur is not None:
                 self.pending.setdefault(s[3], []).append(cur)
             return cur
@@ -254,6 +263,7 @@ class Oracle:
         if k == 'block':
             return self.block(s[1], cur)
         if k == 'if':
+            self.use(s[1], cur)
             a = self.block(s[3], cur)
             b = self.block(s[4], cur) if s[4] is not None else cur
             return self.meet(a, b)
@@ -310,6 +320,44 @@ FIXED = [
     ('fn f(x: i32) -> i32\n{\n\tvar r: i32 = 0;\n\tvar a: i32 = 2;\n\tif x == 2\n\t\tgoto next;\n\tvar b: i32 = 2;\n\tif x == 1\n\t\tgoto next;\n\tnext:\n\tr = b;\n\treturn: r\n}\n', {'482'}, 'two gotos, only the first one skips the declaration'),
     ('fn f(x: i32) -> i32\n{\n\tvar r: i32 = 0;\n\tif x == 1\n\t\tgoto a;\n\tvar v: i32 = 2;\n\ta:\n\tr = 1;\n\tif x == 2\n\t\tgoto b;\n\tr = 2;\n\tb:\n\tr = v;\n\treturn: r\n}\n', {'482'}, 'the doubt survives a second label'),
 ]
+
+
+def skip_family():
+    """the doubt about a skipped declaration must reach the first use whatever stands in between: goto placement x declaration
+    before/after the goto x what stands between the label and the use x where the use stands (320 bodies, verdict by the oracle)"""
+    one = [('lit', '1')]
+    bump = ('assign', 'acc', [('name', 'acc'), ('lit', '1')])
+    gotos = {
+        'same block': [('ifgoto', 'p0', 1, 'l1')],
+        'nested block': [('block', [('ifgoto', 'p0', 1, 'l1')])],
+        'doubly nested block': [('block', [bump, ('block', [('ifgoto', 'p0', 1, 'l1')])])],
+        'closing goto of an if-block': [('if', 'p1', 2, [bump, ('goto', 'l1')], None)],
+    }
+    interludes = {
+        'nothing': [],
+        'an empty block': [('block', [])],
+        'a block': [('block', [bump])],
+        'an if-block': [('if', 'p1', 3, [bump], None)],
+        'an if/else with an empty branch': [('if', 'p1', 3, [], [bump])],
+        'a second label': [('ifgoto', 'p1', 4, 'l2'), ('label', 'l2'), bump],
+        'a block with its own variable': [('block', [('decl', 'v1', one, 901), ('assign', 'acc', [('name', 'v1')])])],
+        'an array declaration': [('declarr', 'v2', 902)],
+        'nested empty blocks': [('block', [('block', [])])],
+        'a loop block': [('block', [('ifgoto', 'p1', 9, 'l9'), bump, ('loop',)]), ('label', 'l9'), bump],
+    }
+    uses = {
+        'a plain use': [('assign', 'acc', [('name', 'acc'), ('name', 'v0')])],
+        'a use in a nested block': [('block', [('assign', 'acc', [('name', 'v0')])])],
+        'a use in a condition': [('if', 'v0', 1, [bump], None)],
+        'an assignment to it, then a second use': [('assign', 'v0', [('lit', '3')]), ('assign', 'acc', [('name', 'v0')])],
+    }
+    for gn, g in gotos.items():
+        for skipped in (True, False):
+            for inn, it in interludes.items():
+                for un, us in uses.items():
+                    d = [('decl', 'v0', one, 900)]
+                    body = (g + d if skipped else d + g) + [('label', 'l1'), bump] + it + us
+                    yield body, 'goto in %s, declaration %s the goto, then %s, then %s' % (gn, 'after' if skipped else 'before', inn, un)
 
 
 def exhaustive(maxlen):
@@ -376,6 +424,10 @@ def search(deadline, rng, bodies=400, exhaustive_len=0):
         o.expect = set(exp)
         o.why = [what]
         cases.append((src, o))
+    for body, what in skip_family():
+        o = expected(body)
+        o.why = [what] + o.why
+        cases.append((render(body), o))
     for i in range(bodies):
         g = G(rng, rng.choice([6, 10, 16, 24]))
         body = g.block(0, ['return'], top=True)
